@@ -23,6 +23,7 @@ let () =
       Printf.printf "0%s\n" (bool_s (within_range32 (z_of_dec v) (z_of_dec tg) (z_of_dec m)))
     | ["T"; a; b] ->
       Printf.printf "0%s\n" (bool_s (timestamp_ok (z_of_dec a) (z_of_dec b)))
+    | ["M"; t] -> print_endline (dec_of_z (minute (z_of_dec t)))
     | ["C"] -> cache := None; dec := None; print_endline "-"
     | ["L"; now] ->
       let now = z_of_dec now in
